@@ -306,7 +306,16 @@ def packet_emission_order(ctx, b):
             if e["bi"] in info["body"]:
                 nodes = [n for n in a2.join_info if n[0] == h]
                 src = layout.loop_source(a2, nodes[0]) if nodes else "?"
-        order.append((e["fn"], e["type"], src))
+        ty = e["type"]
+        if ty is None and src and src.startswith("(*_1)."):
+            # written through a generic helper (`write_section<E: WireFormat>`): the element type is that of the collection
+            adt = prog.adts.get("simple_dns::dns::packet::Packet")
+            fld = [f for f in (adt["variants"][0]["fields"] if adt else []) if f["name"] == src.split(".")[-1]]
+            if fld:
+                m = re.search(r"Vec<(?:[\w:]+::)?(\w+)", prog.types["simple_dns"][fld[0]["t"]]["s"])
+                if m:
+                    ty = m.group(1)
+        order.append((e["fn"], ty, src))
     return order
 
 
